@@ -28,7 +28,15 @@
    M layer = one action per Bob command / user command / upstream or recipe change; the
    decisions inside a Bob command follow the code (line numbers in comments).  Weak selects
    weakenings of the mechanism whose TLC counterexamples become targeted replay histories.
-   Weak = {} is the intended (repaired) mechanism.                                          *)
+   Weak = {} is the intended (repaired) mechanism.
+     ResetHard, NoUnpushedRefusal, NoDetachedRefusal, AtticDeletes, CleanIgnoresStatus,
+     UrlSwitchAnyUrl, SwitchNoFetch     mistakes the code does not make (targeted tests)
+     UrlKeepsMismatch                   what url.py does at the time of writing (finding D1): a file
+                                        whose digest mismatches is kept, the checkout fails forever
+     FFAcceptsBehind                    what git.py does at the time of writing (finding D2): an inline
+                                        switch whose new upstream branch is behind the local branch
+                                        "succeeds" and leaves the workspace ahead of the recipe
+   Not modelled: stash, submodules, shallow/singleBranch/rebase, svn/cvs, tarball extraction.       *)
 EXTENDS Naturals, Sequences, FiniteSets, TLC, Json
 
 CONSTANTS MaxSteps, MaxEdit, MaxUp, MaxUser, MaxBob,
@@ -359,7 +367,7 @@ LoopA(st, d, old, new, force) ==
          IN [st EXCEPT !.g = NoRepo,
                        !.aux = IF nestedAux THEN NoAux ELSE @,
                        !.ds = IF nestedAux THEN [setd(st.ds, NoA) EXCEPT !.aux = NoB] ELSE setd(st.ds, NoA),
-                       !.attic = IF sw.r.ex /\ ~gone THEN @ \cup {[r |-> sw.r, s |-> old, nested |-> nestedAux /\ st.aux.kind # "none"]} ELSE @,
+                       !.attic = IF sw.r.ex /\ ~gone THEN @ \cup {[r |-> sw.r, s |-> old, nested |-> nestedAux /\ st.aux.kind # "none", n |-> nbob]} ELSE @,
                        !.dec = Append(@, "attic")]
 
 LoopB(st, old, new) ==
